@@ -2,7 +2,7 @@ import re
 
 from . import operator, xlerrors, func_xltypes
 
-CRITERIA_REGEX = r'(\W*)(.*)'
+CRITERIA_REGEX = r'(<=|<>|>=|<|>|=)?(.*)'
 
 CRITERIA_OPERATORS = {
     '<': operator.OP_LT,
@@ -17,7 +17,7 @@ CRITERIA_OPERATORS = {
 def parse_criteria(criteria):
 
     if isinstance(criteria, (str, func_xltypes.Text)):
-        search = re.search(CRITERIA_REGEX, str(criteria)).group
+        search = re.match(CRITERIA_REGEX, str(criteria), re.DOTALL).group
         str_operator, str_value = search(1), search(2)
 
         operator = CRITERIA_OPERATORS.get(str_operator)
